@@ -254,6 +254,9 @@ func sanitizeSQLiteColumnType(colType string) (string, error) {
 	if !sqliteColumnTypePattern.MatchString(colType) {
 		return "", fmt.Errorf("invalid column type: %s", colType)
 	}
+	if err := validateColumnTypeShape(colType); err != nil {
+		return "", err
+	}
 
 	baseType := strings.Fields(upperType)[0]
 	if idx := strings.Index(baseType, "("); idx != -1 {
